@@ -571,7 +571,10 @@ def run_c19(tier: str) -> int:
         "reference automaton (10 lines, 32-bit wrapping unsigned arithmetic) written from the property text",
         "every transmitted frame is compared with can_encode_msg_<m> of the same device bytes (second symbolic run)",
         "clang-14 -O0 IR; counterexamples replayed natively (clang and gcc) with a generated main()"]
-    for r in pmap(c19_case, [(p, k, tier) for p in devs]):
+    # BMC depth by device size: the number of send patterns per call grows with the number of messages
+    depth = lambda p: k if len(p) <= 2 else (max(3, k - 2) if len(p) == 3 else 3)
+    rep.bounds["bmc_depth_by_messages"] = {"1-2": k, "3": max(3, k - 2), "4": 3}
+    for r in pmap(c19_case, [(p, depth(p), tier) for p in devs]):
         rep.merge(r)
         if rep.red_enough():
             break
